@@ -92,6 +92,15 @@ Definition valid_host_byte (c : byte) : bool := is_alnum c || in_str c "!$%&()*+
 Definition valid_host_header (h : bytes) : bool := forallb valid_host_byte h.
 Definition is_ascii (s : bytes) : bool := forallb (fun c => (bN c <? 128)%N) s.
 
+(* Client.roundTrip: http.Request.Host is the Host override, else the host of the URL - never empty
+   for a URL with a host.  The writers use Request.Host and fall back to URL.Host only when it is
+   empty; Transport.roundTripAltSvc rewrites URL.Host to the alternative endpoint and leaves
+   Request.Host alone. *)
+Definition req_host_field (override url_host : bytes) : bytes :=
+  if is_nil override then url_host else override.
+Definition writer_authority (req_host url_host : bytes) : bytes :=
+  if is_nil req_host then url_host else req_host.
+
 Inductive outcome (A : Type) := Sent (x : A) | Rejected | Unsupported.
 Arguments Sent {A} x. Arguments Rejected {A}. Arguments Unsupported {A}.
 
@@ -107,7 +116,7 @@ Definition to_creq_gen (mcheck : bool) (a : areq) : outcome creq :=
   | BUnsupported => Unsupported
   | BOk scheme uhost target =>
       let h1 := body_headers a h0 in
-      let host := let o := header_get h1 (bs "Host") in if is_nil o then uhost else o in
+      let host := writer_authority (req_host_field (header_get h1 (bs "Host")) uhost) uhost in
       let h2 := fold_left add_cookie (a_rck a ++ a_cck a) h1 in
       if negb (forallb valid_cookie (a_rck a ++ a_cck a)) then Rejected      (* checkRequestCookie *)
       else if negb (valid_headers h2) then Rejected
@@ -411,3 +420,48 @@ Definition run_attempt_shared (ch : list kv) (cck : list (bytes * bytes)) (attem
    connection's encoder.  The codec itself is abstract. *)
 Definition field_list_size (ls : list line) : N :=
   fold_left (fun acc l => (acc + N.of_nat (length (fst l)) + N.of_nat (length (snd l)) + 32)%N) ls 0%N.
+
+(* ---------- the body of one Request object across its setters and sends ----------
+   SetBody(value) records the value (marshalled at every send), SetBodyBytes / SetBodyString record
+   bytes; the last setter wins (fix a2d471f); a send marshals the value as it is then. *)
+Section BodyOfSends.
+  Context {V : Type} (marshal : V -> bytes).
+  Inductive body_op := SetValue (v : V) | SetBytes (b : bytes) | SendNow.
+  Record bstate := mkBs { b_value : option V; b_bytes : bytes }.
+
+  Definition body_step (st : bstate) (op : body_op) : bstate * option bytes :=
+    match op with
+    | SetValue v => (mkBs (Some v) (b_bytes st), None)
+    | SetBytes b => (mkBs None b, None)
+    | SendNow => match b_value st with
+                 | Some v => (mkBs (Some v) (marshal v), Some (marshal v))
+                 | None => (st, Some (b_bytes st))
+                 end
+    end.
+
+  Fixpoint body_run (st : bstate) (ops : list body_op) : list bytes :=
+    match ops with
+    | [] => []
+    | op :: r => let '(st', out) := body_step st op in
+                 match out with Some b => b :: body_run st' r | None => body_run st' r end
+    end.
+
+  (* what the API calls describe: at every send, the last thing that was set *)
+  Fixpoint described_bodies (cur : bytes) (ops : list body_op) : list bytes :=
+    match ops with
+    | [] => []
+    | SetValue v :: r => described_bodies (marshal v) r
+    | SetBytes b :: r => described_bodies b r
+    | SendNow :: r => cur :: described_bodies cur r
+    end.
+
+  (* the variant that marshals a value only while the request holds no bytes yet *)
+  Definition body_step_cached (st : bstate) (op : body_op) : bstate * option bytes :=
+    match op with
+    | SendNow => match b_value st, b_bytes st with
+                 | Some v, [] => (mkBs (Some v) (marshal v), Some (marshal v))
+                 | _, b => (st, Some b)
+                 end
+    | _ => body_step st op
+    end.
+End BodyOfSends.
